@@ -1,0 +1,6 @@
+//go:build !verif
+
+package sweeper
+
+// verifYield is a no-op unless built with the "verif" tag (verification harness only).
+func verifYield(*Sweeper, string) {}
